@@ -74,9 +74,9 @@ def check(ctx):
     t4 = os.path.join(w, "storm.ndjson")
     vlib.xv("singleflight", mode="storm", n=20 if thorough else 4, seed=ctx.seed, callers=32, keys=4, rounds=6, out=t4)
     validate(ctx, t4, "storm")
-    # 5. one flight with a crowd of 66 000 callers (above every 16-bit count): totals only
+    # 5. one flight with a crowd of 65 535, 65 536, 65 537 (... ) callers, the counts where a 16-bit counter wraps: totals only
     t5 = os.path.join(w, "crowd.ndjson")
-    vlib.xv("singleflight", mode="crowd", n=3 if thorough else 1, seed=ctx.seed, out=t5)
+    vlib.xv("singleflight", mode="crowd", n=5 if thorough else 3, seed=ctx.seed, out=t5)
     validate(ctx, t5, "crowd")
     ctx.assumptions += [
         "tokio Notify::notify_waiters wakes exactly the Notified futures created before the call (modelled as the `registered` set)",
